@@ -91,6 +91,9 @@ func (p Path) local() string {
 			return a.alias + "." + strings.TrimPrefix(*p.P, a.ns)
 		}
 	}
+	if strings.HasPrefix(*p.P, SchemelessNS) {
+		return "sl." + strings.TrimPrefix(*p.P, SchemelessNS)
+	}
 	return "ex." + strings.TrimPrefix(*p.P, NS)
 }
 
@@ -494,6 +497,10 @@ func (rv *ReportView) Pairs() []string {
 var altNamespaces = []struct{ alias, ns string }{
 	{"inv", "urn:example:inventory:"}, {"w_", "http://ex.org/w?k="}, {"apiExt", "http://ex.org/own-ext#"},
 }
+
+// SchemelessNS: a namespace written without a scheme (alias `sl`).  A JSON-LD document cannot carry a predicate of it (a key that is
+// not an absolute IRI is dropped), so constraints over it see no values; what they are called in the report is still their IRI
+const SchemelessNS = "example.org/vocab/"
 
 // moveToNs rewrites predicate NS+local to the namespace of altNamespaces[k] everywhere in the graph and the path
 func moveToNs(gr Graph, p *Path, local string, k int) (alias, ns string) {
